@@ -856,14 +856,14 @@ func (c *Ctx) checkParseLevelRange(r *Report) {
 			}
 		}
 		if emptyPath {
-			if mn == "global:NoneLevel" && mx == "global:MaxLevel" {
+			if mn == "global:NoneLevel" && mx == "global:MaxLevel" { // exported level variables
 				nOK++
 			} else {
 				bad = append(bad, fmt.Sprintf("empty range string yields [%s,%s), want [NoneLevel,MaxLevel)", mn, mx))
 			}
 			return
 		}
-		reg := "global:levelRegistry"
+		reg := globalPath(c.names().LevelRegistry)
 		wantMin := "extract:#0(lookup:lookup(" + reg + ", strings.ToUpper("
 		if !strings.HasPrefix(mn, wantMin) || !strings.Contains(mn, "[0]") {
 			bad = append(bad, "lower bound is not levelRegistry[ToUpper(part 0)]: "+mn)
